@@ -37,7 +37,7 @@ type LibOp struct {
 	D        int64   `json:"d,omitempty"`
 	Implicit bool    `json:"implicit_now,omitempty"` // pass now=0, rely on whispertool.Now
 	NoClose  bool    `json:"no_close,omitempty"`     // abandon without Close
-	FailAt   int64   `json:"fail_at,omitempty"`      // sync (C05): >0: writes at file offsets >= FailAt-1 fail during this Sync (F7, the disk is full beyond that offset)
+	FailAt   int64   `json:"fail_at,omitempty"`      // sync (C05): >0: writes at file offsets >= FailAt-1 fail during this Sync (F10, the disk is full beyond that offset)
 }
 
 // LibCase is a library history.
@@ -169,7 +169,7 @@ func (libSim) Gen(prop, tier string, r *rand.Rand) interface{} {
 		case x < wUpd+wMany+wAdv+wSync:
 			op := LibOp{Op: "sync"}
 			if prop == "C05" && chance(r, 0.04) {
-				// F7: the disk is full beyond a seeded offset while this Sync writes
+				// F10: the disk is full beyond a seeded offset while this Sync writes
 				size := int64(16 + 12*len(l.Archs))
 				for _, a := range l.Archs {
 					size += 12 * a.N
